@@ -73,7 +73,7 @@ def run(ctx):
                       {"stream": "C14-bytes", "input_hex": inputs[idx].hex(), "stderr": err})
     bad = 0
     for q, i, m in zip(inputs, irecs, mrecs):
-        if i.err == "crash" or i.err == "timeout" or (i.err or "").startswith("budget"):
+        if i.err in ("crash", "timeout", "skipped") or (i.err or "").startswith("budget"):
             continue
         ic = i.err if (i.err or "").startswith("compile") else None
         mc = m.err if (m.err or "").startswith("compile") else None
